@@ -48,6 +48,12 @@ fn check_inner(case: &Case, obs: &mut Obs) -> CheckResult {
     if s.max_fail_run >= 3 {
         obs.label("fetch-failures>=3-in-a-row");
     }
+    if c.jitter > 0.0 {
+        obs.label("backoff-jitter>0");
+        if s.max_fail_run >= 5 {
+            obs.label("backoff-jitter>0:failures>=5-in-a-row");
+        }
+    }
     if s.issue_reports >= 2 * c.issue_cache as u64 {
         obs.label("issue-reports>=2x-cache");
     }
@@ -98,8 +104,10 @@ fn cfg_strategy() -> impl Strategy<Value = Cfg> {
         gens::pick(vec![0u64, 10_000]),
         gens::pick(vec![30_000u64, 120_000, 100_000_000, 100_000_000]),
         gens::pick(vec![0.1f32, 0.5]),
+        // jitter of the failure backoff (the default configuration uses 5 s)
+        gens::pick(vec![0.0f32, 0.0, 0.5, 5.0]),
     )
-        .prop_map(|(max_cached, thr, md_sel, rf_sel, backoff, issue_cache, dedup_ms, idle_ms, swap_thr)| {
+        .prop_map(|(max_cached, thr, md_sel, rf_sel, backoff, issue_cache, dedup_ms, idle_ms, swap_thr, jitter)| {
             // min delay: 0 (rare), 1 s, thr/2, thr (equality corner of min_delay <= threshold),
             // or thr + 1 ms (just invalid)
             let min_delay_ms = match md_sel {
@@ -118,7 +126,7 @@ fn cfg_strategy() -> impl Strategy<Value = Cfg> {
                     if min_delay_ms > 1 { min_delay_ms - 1 } else { 100_000 }
                 }
             };
-            Cfg { max_cached, refetch_ms, min_delay_ms, threshold_ms: thr, idle_ms, backoff, issue_cache, dedup_ms, swap_thr }
+            Cfg { max_cached, refetch_ms, min_delay_ms, threshold_ms: thr, idle_ms, backoff, jitter, issue_cache, dedup_ms, swap_thr }
         })
 }
 
@@ -154,12 +162,34 @@ fn starvation_prefix(cfg: Cfg) -> impl Strategy<Value = Vec<Op>> {
         })
 }
 
+/// History prefix built on purpose: the control service fails for many consecutive attempts, so
+/// that the exponential part of the backoff reaches (and would exceed) its ceiling.
+fn failure_run_prefix() -> impl Strategy<Value = Vec<Op>> {
+    (prop_oneof![Just(FetchSpec::Error), Just(FetchSpec::NotFound), Just(FetchSpec::Paths(vec![]))], 4usize..14, any::<bool>()).prop_map(|(failure, ticks, path_first)| {
+        let mut ops = vec![];
+        if path_first {
+            let ps = PathSpec { route: 0, life: Life::Rel(86_000), exp_unit: 255, min_seg: 0, meta: Meta::Full, meta_exp_skew: 0 };
+            ops.extend([Op::Fetch(FetchSpec::Paths(vec![ps])), Op::Advance(Adv::Ms(0)), Op::Send]);
+        }
+        ops.push(Op::Fetch(failure));
+        for _ in 0..ticks {
+            ops.push(Op::Advance(Adv::NextMaintain(0)));
+        }
+        ops.push(Op::Send);
+        ops
+    })
+}
+
 fn case_strategy(max_ops: usize) -> impl Strategy<Value = Case> {
     cfg_strategy().prop_flat_map(move |cfg| {
         let tail = || gens::ops_strategy(cfg, max_ops, 6, [20, 35, 8, 30, 7], 10_000);
         prop_oneof![
             3 => tail().prop_map(move |ops| Case { cfg, policies: vec![], ops }),
             1 => (starvation_prefix(cfg), tail()).prop_map(move |(mut pre, t)| {
+                pre.extend(t.into_iter().take(max_ops.saturating_sub(pre.len())));
+                Case { cfg, policies: vec![], ops: pre }
+            }),
+            1 => (failure_run_prefix(), tail()).prop_map(move |(mut pre, t)| {
                 pre.extend(t.into_iter().take(max_ops.saturating_sub(pre.len())));
                 Case { cfg, policies: vec![], ops: pre }
             }),
@@ -176,8 +206,13 @@ fn run_random(ctx: &Ctx) {
 // ------------------------------------------------------------------------------ exhaustive
 
 fn exh_cfgs() -> Vec<Cfg> {
-    let fast = Cfg { max_cached: 5, refetch_ms: 100_000, min_delay_ms: 1_000, threshold_ms: 5_000, idle_ms: 100_000_000, backoff: (1.0, 10.0, 2.0), issue_cache: 2, dedup_ms: 10_000, swap_thr: 0.1 };
-    vec![fast, Cfg { max_cached: 1, min_delay_ms: 5_000, refetch_ms: 5_000, dedup_ms: 0, issue_cache: 1, ..fast }]
+    let fast = Cfg { max_cached: 5, refetch_ms: 100_000, min_delay_ms: 1_000, threshold_ms: 5_000, idle_ms: 100_000_000, backoff: (1.0, 10.0, 2.0), jitter: 0.0, issue_cache: 2, dedup_ms: 10_000, swap_thr: 0.1 };
+    vec![
+        fast,
+        Cfg { max_cached: 1, min_delay_ms: 5_000, refetch_ms: 5_000, dedup_ms: 0, issue_cache: 1, ..fast },
+        // jitter > 0 with an exponential part that sits at the ceiling from the first failure on
+        Cfg { backoff: (2.0, 2.0, 1.0), jitter: 1.0, ..fast },
+    ]
 }
 fn alphabet() -> Vec<Op> {
     let ps = |route: u8, life: i32| PathSpec { route, life: Life::Rel(life), exp_unit: 1, min_seg: 0, meta: Meta::Full, meta_exp_skew: 0 };
@@ -232,6 +267,7 @@ fn post(ctx: &Ctx) {
     ctx.require_label("nontrivial", ctx.tier.pick(800, 80_000));
     ctx.require_label("time-crossed-active-expiry", 100);
     ctx.require_label("fetch-failures>=3-in-a-row", 150);
+    ctx.require_label("backoff-jitter>0:failures>=5-in-a-row", 150);
     ctx.require_label("issue-reports>=2x-cache", 150);
     ctx.require_label("config-corner:min_delay==threshold", 100);
     ctx.require_label("config-corner:min_delay==refetch_interval", 100);
@@ -250,10 +286,10 @@ fn main() {
     ];
     vcore::main(
         "C06",
-        "case = (manager configuration, history). Configurations: max cached {0 rare,1,2,5,50}; expiry threshold {5,30,300 s}; min refetch delay {0, 1 s, thr/2, thr (equality corner), thr+1ms (invalid)}; refetch interval {== min delay (equality corner), 100 s, 30 min, min delay-1 (invalid)}; six backoff triples with jitter 0; issue cache {1,2,8}; dedup window {0,10 s}; invalid configurations must be rejected. Ops as in C05 plus IssueRepeat(n up to 10^4, spacing 0/1ms/window-1/window/window+1/2*window+7/60 s) and constructed 'starvation' prefixes (short-lived active path, then the control service errs / finds nothing so that backoff or min delay carries the next tick past the expiry). maintain() runs at every instant next_maintain() names. Invariants: (1) at every Send the path in the active slot (what cached_path / path_wait clone) has hop-field expiry (decoded from the raw bytes by refmodel) > now, and the three read APIs agree; (2) right after a maintenance instant with a fetch, if a policy-conform unexpired path was delivered by this fetch - or retained from earlier ones when no truncation can have happened - the slot is not empty; (3) cached <= max_cached_paths_per_pair; (4) issue cache <= issue_cache_size and its FIFO <= 4*size+4; (5) after a fetch at t: t+min_refetch_delay <= next_refetch; failed: <= t+max(backoff max, min delay); successful: <= t+refetch_interval; failed_attempts counts the consecutive failures; (6) no panic / debug assertion anywhere. Exhaustive: all histories of length <= 4 (thorough 5) over a 10-op boundary-time alphabet x 2 configurations. Non-trivial = time crossed the active path's expiry, or >= 3 consecutive fetch failures, or >= 2*issue_cache_size issue reports.",
+        "case = (manager configuration, history). Configurations: max cached {0 rare,1,2,5,50}; expiry threshold {5,30,300 s}; min refetch delay {0, 1 s, thr/2, thr (equality corner), thr+1ms (invalid)}; refetch interval {== min delay (equality corner), 100 s, 30 min, min delay-1 (invalid)}; six backoff triples x jitter {0, 0.5 s, 5 s} (the jitter is drawn by the manager's own RNG: only the property's bounds are asserted, never a drawn value); issue cache {1,2,8}; dedup window {0,10 s}; invalid configurations must be rejected. Ops as in C05 plus IssueRepeat(n up to 10^4, spacing 0/1ms/window-1/window/window+1/2*window+7/60 s) constructed 'starvation' prefixes (short-lived active path, then the control service errs / finds nothing so that backoff or min delay carries the next tick past the expiry) and 'failure run' prefixes (4..13 consecutive failed lookups, so that the exponential part of the backoff reaches its ceiling). maintain() runs at every instant next_maintain() names. Invariants: (1) at every Send the path in the active slot (what cached_path / path_wait clone) has hop-field expiry (decoded from the raw bytes by refmodel) > now, and the three read APIs agree; (2) right after a maintenance instant with a fetch, if a policy-conform unexpired path was delivered by this fetch - or retained from earlier ones when no truncation can have happened - the slot is not empty; (3) cached <= max_cached_paths_per_pair; (4) issue cache <= issue_cache_size and its FIFO <= 4*size+4; (5) after a fetch at t: t+min_refetch_delay <= next_refetch; failed: <= t+max(backoff max, min delay); successful: <= t+refetch_interval and <= max(t+min delay, earliest cached expiry - threshold); failed_attempts counts the consecutive failures; (6) no panic / debug assertion anywhere; (7) at EVERY Send: if nothing is handed out, no path the manager itself still caches is unexpired. Exhaustive: all histories of length <= 4 (thorough 5) over a 10-op boundary-time alphabet x 3 configurations (one with jitter). Non-trivial = time crossed the active path's expiry, or >= 3 consecutive fetch failures, or >= 2*issue_cache_size issue reports.",
         &[
             "maintenance runs exactly at the instants next_maintain() names (the real task runs it at or after them, which only widens the windows reported)",
-            "backoff jitter is 0 so that schedules are exact; backoff parameters are positive with max >= min and factor >= 1 (there is no public setter and no validation for them)",
+            "backoff parameters are positive with max >= min and factor >= 1 (there is no public setter and no validation for them); with jitter > 0 the schedule depends on the manager's RNG, so only bounds are asserted and such histories have several executions",
             "fetches resolve instantly",
             "ranking ties are broken nondeterministically by the manager (new paths pass through a randomly keyed HashMap before a stable sort), so one history has several executions; no assertion depends on WHICH of equally ranked paths wins: every oracle constrains whatever path is returned (policy, provenance, liveness), sizes, schedules, or - in C07 - scores up to a 1e-3 tolerance where any path within tolerance of the best is accepted; replays and regressions run a case 33 times and fail if any execution fails",
         ],
